@@ -63,6 +63,7 @@ type stepOut struct {
 	store      *memory.Database // store after the run (no crash applied)
 	log        []logEntry
 	ops        int64
+	reads      int64
 	kinds      map[string]int
 	cancelKind string
 	newErr     error
@@ -73,9 +74,12 @@ type stepOut struct {
 // runUpgrade starts a fresh "process" on a copy of pre: new migrator objects,
 // NewRunner, Run. cancelAt > 0 cancels the context at the cancelAt-th database
 // operation; failAt >= 0 makes every commit after the failAt-th fail.
-func runUpgrade(pre *memory.Database, f flags, cancelAt int64, failAt int) stepOut {
+func runUpgrade(pre *memory.Database, f flags, cancelAt int64, failAt int, failReadAt ...int64) stepOut {
 	work := pre.Copy()
 	rec := newRecDB(work)
+	if len(failReadAt) > 0 {
+		rec.failReadAt = failReadAt[0]
+	}
 	ctx, cancel := context.WithCancel(context.Background())
 	defer cancel()
 	rec.cancel, rec.cancelAt, rec.failAt = cancel, cancelAt, failAt
@@ -89,6 +93,7 @@ func runUpgrade(pre *memory.Database, f flags, cancelAt int64, failAt int) stepO
 	out.cancelled = ctx.Err() != nil
 	out.log = rec.commitLog()
 	out.ops = rec.opCount()
+	out.reads = rec.nreads.Load()
 	out.kinds, out.cancelKind = rec.opKinds()
 	return out
 }
@@ -244,7 +249,8 @@ func normErr(err error) string {
 // ------------------------------------------------------------------ one database, all interruption plans
 
 type planStep struct {
-	Kind     string // "crash" | "cancel" | "write-error" | "cancel+crash"
+	Kind     string // "crash" | "cancel" | "write-error" | "cancel+crash" | "read-error"
+	FailReadAt int64
 	CancelAt int64
 	FailAt   int
 	CrashAt  int // commits surviving (crash kinds)
@@ -316,6 +322,8 @@ func fmtPlan(steps []planStep) string {
 			parts = append(parts, fmt.Sprintf("cancel-at-op-%d", s.CancelAt))
 		case "write-error":
 			parts = append(parts, fmt.Sprintf("writes-fail-after-commit-%d", s.FailAt))
+		case "read-error":
+			parts = append(parts, fmt.Sprintf("point-read-%d-fails", s.FailReadAt))
 		default:
 			parts = append(parts, fmt.Sprintf("cancel-at-op-%d+crash-after-commit-%d", s.CancelAt, s.CrashAt))
 		}
@@ -352,9 +360,12 @@ func (c *dbCase) finish(image *memory.Database, f flags, steps []planStep, okBef
 
 // interrupt performs one interrupted run on image and returns the surviving image.
 func (c *dbCase) interrupt(image *memory.Database, f flags, st *planStep, okNew map[uint64]bool, steps []planStep) (*memory.Database, bool) {
-	o := runUpgrade(image, f, st.CancelAt, st.FailAt)
+	o := runUpgrade(image, f, st.CancelAt, st.FailAt, st.FailReadAt)
 	c.r.Eval(1)
 	if o.newErr != nil {
+		if st.Kind == "read-error" && errors.Is(o.newErr, errInjectedRead) {
+			return image, true // the failing read hit NewRunner: nothing was started
+		}
 		c.report(steps, f.String(), []issue{{"newrunner-refuses-own-interrupted-database", o.newErr.Error()}})
 		return nil, false
 	}
@@ -375,6 +386,17 @@ func (c *dbCase) interrupt(image *memory.Database, f flags, st *planStep, okNew 
 		if !o.cancelled && o.runErr != nil {
 			c.report(steps, f.String(), []issue{{"upgrade-run-fails:" + normErr(o.runErr), o.runErr.Error()}})
 		}
+	case "read-error":
+		// one point read fails (an I/O error that goes away): the run may fail or cope, and whatever it
+		// committed before returning is what the next start finds
+		c.r.Count("upgrade.read-error-runs", 1)
+		if o.runErr != nil {
+			c.r.Count("upgrade.read-error-runs-that-failed", 1)
+		}
+		if o.runErr == nil && readMeta(after, nSlots).Current != f.target() {
+			c.report(steps, f.String(), []issue{{"run-returns-nil-without-completing-after-a-read-error", ""}})
+		}
+		st.Note = fmt.Sprintf("run error: %v", o.runErr)
 	case "write-error":
 		c.r.Count("upgrade.write-error-runs", 1)
 		if len(o.log) > st.FailAt {
@@ -520,6 +542,19 @@ func upgradeCase(r *lib.Run, idx int) {
 			r.Case(fmt.Sprintf("%s|cancel|%d/%d", shape, k, base.ops))
 			r.Count("upgrade.plans:1-restart", 1)
 		}
+		// one failing point read
+		for i := 0; i < 6 && base.reads > 0; i++ {
+			k := 1 + rng.Int64N(base.reads)
+			steps := []planStep{{Kind: "read-error", FailReadAt: k, FailAt: -1, Flags: f0.String()}}
+			okNew := map[uint64]bool{}
+			image, ok := c.interrupt(pre, f0, &steps[0], okNew, steps)
+			if !ok {
+				continue
+			}
+			c.finish(image, f0, steps, okNew)
+			r.Case(fmt.Sprintf("%s|read-error|%d/%d", shape, k, base.reads))
+			r.Count("upgrade.plans:1-restart", 1)
+		}
 		// write failures (the k-th and every later commit fails)
 		for i := 0; i < 3 && len(base.log) > 0; i++ {
 			k := rng.IntN(len(base.log))
@@ -547,8 +582,10 @@ func upgradeCase(r *lib.Run, idx int) {
 				if rng.IntN(3) == 0 {
 					f[rng.IntN(2)] = true
 				}
-				st := planStep{Kind: []string{"crash", "crash", "cancel", "cancel+crash", "write-error"}[rng.IntN(5)], FailAt: -1, Flags: f.String()}
+				st := planStep{Kind: []string{"crash", "crash", "cancel", "cancel+crash", "write-error", "read-error"}[rng.IntN(6)], FailAt: -1, Flags: f.String()}
 				switch st.Kind {
+				case "read-error":
+					st.FailReadAt = 1 + rng.Int64N(max(base.reads, 1))
 				case "crash":
 					st.CrashAt = rng.IntN(len(base.log) + 1)
 				case "cancel":
